@@ -1,8 +1,47 @@
 """C18 - decided on the shared Raft run (props/raftcommon.py): theorems in coq/Props/C18.v over the L1 model
-coq/Raft, correspondence of that model with the implementation, runtime monitor records of C18."""
+coq/Raft, correspondence of that model with the implementation, runtime monitor records of C18; plus the observer
+handshake of the real TCPTransport (the Raft simulation replaces the transport, so this part runs on the transport
+harness of C14): every read-only connection is a node of its own."""
+import json
+import subprocess
+
 from props import raftcommon as R
+from vlib import coq
+from vlib.ctx import impl_env
 
 PROPS = ('C18',)
 # in schedules with read-only nodes a safety record (majority, one leader, common sequence, fallback) is also a C18 record:
 # the read-only nodes influenced the cluster
-correspondence, search, replay = R.standard_module('C18', PROPS, {'ro_trace': ('C01', 'C03', 'C04', 'C20')})
+_corr, search, replay = R.standard_module('C18', PROPS, {'ro_trace': ('C01', 'C03', 'C04', 'C20')})
+
+
+def observer_handshake(ctx):
+    n = 600 if ctx.quick else 6000
+    code = ('import json, sys; sys.path.insert(0, %r)\n'
+            'from harness import transport as H\n'
+            'TR, ND, CF = H.load_impl()\n'
+            'out, ro = [], 0\n'
+            'for s in range(%d, %d):\n'
+            '    c = H.gen_and_run(s, TR, ND, CF)\n'
+            '    ro += c["tags"].count("handshake_readonly")\n'
+            '    for k, t in c["problems"]:\n'
+            '        if k == "readonly-id" or "read-only" in t:\n'
+            '            out.append([s, k, t])\n'
+            'print(json.dumps({"problems": out[:5], "handshakes": ro}))\n'
+            % (coq.VERIF, 70000 + ctx.seed * 7, 70000 + ctx.seed * 7 + n))
+    try:
+        p = subprocess.run(['/venv/bin/python', '-c', code], stdout=subprocess.PIPE, stderr=subprocess.PIPE, text=True,
+                           env=impl_env(), timeout=1800)
+        res = json.loads(p.stdout.strip().split('\n')[-1])
+    except Exception as e:
+        ctx.obligation('observer-handshake-cases-ran', False, repr(e))
+        return
+    ctx.monitor['observer_handshakes_on_the_real_transport'] = res['handshakes']
+    for s, k, t in res['problems'][:2]:
+        ctx.violation('C18 monitor on the implementation (transport, %s): %s' % (k, t),
+                      {'kind': 'transport_case', 'seed': s, 'problem': [k, t]}, found_input=True)
+
+
+def correspondence(ctx):
+    observer_handshake(ctx)
+    _corr(ctx)
